@@ -12,6 +12,7 @@ Contracts (functions read from /repo at run time):
                                                ensures = get_normalized_feature_vector(ueg_vector())
   transform_data:get_vmap_heg_value            ensures = VMap value at the UEG feature; centred VMap gives 0
 """
+import json
 import os
 import sys
 import warnings
@@ -418,6 +419,13 @@ def unit_sdmx(ctx):
         v = list(it.call_method(obj, "ueg_vector", [RHO]))
         v1 = list(it.call_method(obj, "ueg_vector", [1]))
         ctx.holds("%s.len(ueg)=len(usps)" % label, len(v) == len(usps) == len(v1), "%d %d" % (len(v), len(usps)), fq)
+        # history: the reported vector is a function of (settings, rho) alone — asking again, or asking a second object with the same parameters after
+        # the first was asked, gives the same values (tables shared between calls must not be modified by a call)
+        v_again = list(it.call_method(obj, "ueg_vector", [RHO]))
+        v_other = list(it.call_method(it.call(m.ns[cname], args, kw), "ueg_vector", [RHO]))
+        for i in range(min(len(v), len(v_again), len(v_other))):
+            ctx.equal("%s.ueg(rho)[%d] is the same on a second call" % (label, i), h, v_again[i], v[i], fq, replay=replay_ueg_history(cname))
+            ctx.equal("%s.ueg(rho)[%d] is the same for a second object with the same parameters" % (label, i), h, v_other[i], v[i], fq, replay=replay_ueg_history(cname))
         for i in range(min(len(v), len(usps))):
             ctx.equal("%s.ueg(rho)[%d] = ueg(1) * rho^(usp/3)" % (label, i), h, v[i], tm.lift(v1[i]) * tm.mk_pow(RHO, tm.lift(usps[i]) / 3), fq, replay=replay_sdmx(cname, i))
         if cname != "FracLaplSettings":
@@ -433,26 +441,104 @@ def unit_sdmx(ctx):
     ctx.assume("SDMX / SADM UEG constants at rho = 1 and the fractional-Laplacian Gamma-function closed form are taken as given; their density dependence and normalisation are checked")
 
 
+_SDMX_ARGS = {"SADMSettings": ["smooth"], "SDMXSettings": [[0, 1, 2]], "SDMXGSettings": [[0, 1, 2], 2], "SDMX1Settings": [[0, 1, 2], 2],
+              "SDMXG1Settings": [[0, 1, 2], 2, 1], "SDMXFullSettings": [{1.0: ([0, 1, 2], [3, 2, 1, 1]), 2.0: ([1, 2], [2, 1, 1, 0]), 1.5: ([0], [1, 0, 0, 0])}]}
+
+
+def _native_ueg_history(cname, rho):
+    """The call history of unit_sdmx for one class, on the real code in a fresh process (module-level caches start empty, as in the unit)."""
+    import subprocess
+    code = ("import json, numpy as np\n"
+            "import ciderpress.dft.settings as S\n"
+            "args = %r\n"
+            "st = getattr(S, %r)(*args)\n"
+            "usps = [float(u) for u in st.get_feat_usps()]\n"
+            "v = [float(x) for x in np.asarray(st.ueg_vector(%r))]\n"
+            "v1 = [float(x) for x in np.asarray(st.ueg_vector(1))]\n"
+            "va = [float(x) for x in np.asarray(st.ueg_vector(%r))]\n"
+            "vo = [float(x) for x in np.asarray(getattr(S, %r)(*args).ueg_vector(%r))]\n"
+            "print(json.dumps(dict(usps=usps, v=v, v1=v1, v_again=va, v_other=vo)))\n") % (_SDMX_ARGS[cname], cname, rho, rho, cname, rho)
+    cp = subprocess.run(["/venv/bin/python", "-c", code], capture_output=True, text=True, timeout=300, cwd=os.environ.get("CIDERPRESS_REPO", "/repo"))
+    if cp.returncode != 0:
+        raise RuntimeError(cp.stderr[-300:])
+    return json.loads(cp.stdout.strip().splitlines()[-1])
+
+
+def replay_ueg_history(cname):
+    def replay(wit):
+        if cname not in _SDMX_ARGS:
+            return {"reproduced": None, "note": "no native history replay for %s" % cname}
+        h = _native_ueg_history(cname, 0.8)
+        dev = max([abs(x - y) for x, y in zip(h["v"], h["v_again"])] + [abs(x - y) for x, y in zip(h["v"], h["v_other"])])
+        return {"reproduced": bool(dev > 0), "first_call": h["v"][:4], "second_call": h["v_again"][:4], "fresh_object_afterwards": h["v_other"][:4]}
+    return replay
+
+
 def replay_sdmx(cname, i):
     def replay(wit):
-        import ciderpress.dft.settings as S
         e = env_floats(wit or {})
         rho = e.get("rho", 0.6)
         if abs(rho - 1) < 1e-3:
             rho = 0.6
-        args = {"SADMSettings": ["smooth"], "SDMXSettings": [[0, 1, 2]], "SDMXGSettings": [[0, 1, 2], 2], "SDMX1Settings": [[0, 1, 2], 2],
-                "SDMXG1Settings": [[0, 1, 2], 2, 1], "SDMXFullSettings": [{1.0: ([0, 1, 2], [3, 2, 1, 1]), 2.0: ([1, 2], [2, 1, 1, 0]), 1.5: ([0], [1, 0, 0, 0])}]}.get(cname)
-        if args is None:
+        if cname not in _SDMX_ARGS:
             return {"reproduced": None}
-        st = getattr(S, cname)(*args)
-        u = st.get_feat_usps()[i]
-        a, b = float(np.asarray(st.ueg_vector(rho))[i]), float(np.asarray(st.ueg_vector(1.0))[i]) * rho ** (u / 3.0)
+        h = _native_ueg_history(cname, rho)
+        a, b = h["v"][i], h["v1"][i] * rho ** (h["usps"][i] / 3.0)
         return {"reproduced": bool(abs(a - b) > 1e-9 * (1 + abs(b))), "class": cname, "feature": i, "rho": rho, "ueg_vector(rho)": a, "ueg_vector(1)*rho^(usp/3)": b}
     return replay
 
 
+FL_POWERS = [Q(-1), Q(-1, 2), Q(0), Q(1, 4), Q(1, 2), Q(1), Q(5, 4), Q(3, 2), Q(7, 4), Q(2), Q(5, 2)]
+
+
+def unit_fraclapl(ctx):
+    """FracLaplSettings.ueg_vector: the scalar feature of power s is (-Laplacian')^s of the density matrix on the diagonal; for the uniform gas (plane waves,
+    two electrons per k inside the Fermi sphere)   F_s = 2 * integral_{|k| < kf} k^(2s) d3k / (2 pi)^3 = (1 / pi^2) * integral_0^kf k^(2 + 2s) dk,   kf = (3 pi^2 rho)^(1/3),
+    finite for every s > -3/2.  Spec lemma: the closed form kf^(3+2s) / (pi^2 (3+2s)) has derivative kf^(2+2s) / pi^2 and vanishes at kf = 0.  Code against the
+    spec for each power of FL_POWERS (including s > 1, which the feature definition allows)."""
+    it = ctx.interp
+    m = it.load_module(SMOD)
+
+    def gamma_ext(interp, x):
+        x = tm.lift(x)
+        if x.op == "c" and x.args[0].denominator == 1 and x.args[0] <= 0:
+            raise Unsupported("Gamma function evaluated at the pole %s" % x.args[0])
+        return tm.mk_fn("gamma", x)
+    it.externals["scipy.special.gamma"] = gamma_ext
+    hyps = [tm.mk_lt(tm.ZERO, RHO)]
+    it.hyps = list(hyps)
+    fq = [SMOD + ":FracLaplSettings.ueg_vector"]
+    kf = tm.var("kf")
+    for sp in FL_POWERS:
+        p = 3 + 2 * sp
+        spec_kf = kf ** p / (tm.PI ** 2 * p)
+        ctx.equal("spec lemma s=%s: d/dkf of the closed form is the radial integrand kf^(2+2s) / pi^2" % sp, [tm.mk_lt(tm.ZERO, kf)], tm.diff(spec_kf, kf), kf ** (p - 1) / tm.PI ** 2, [])
+        try:
+            obj = it.call(m.ns["FracLaplSettings"], [[sp], 1, 0, []], {})
+            v = list(it.call_method(obj, "ueg_vector", [RHO]))
+        except (PyRaise, Unsupported) as e:
+            ctx.undecided("FracLapl s=%s: ueg_vector runs" % sp, str(e)[:200], fq)
+            continue
+        spec = tm.mk_pow(3 * tm.PI ** 2 * RHO, tm.const(p / 3)) / (tm.PI ** 2 * p)
+        ctx.equal("FracLapl s=%s: reported UEG value = (1/pi^2) * integral_0^kf k^(2+2s) dk" % sp, hyps, v[0], spec, fq, replay=replay_fraclapl(sp))
+    ctx.canary("FracLapl canary", hyps, tm.mk_pow(3 * tm.PI ** 2 * RHO, tm.const(Q(5, 3))) / (5 * tm.PI ** 2), tm.mk_pow(3 * tm.PI ** 2 * RHO, tm.const(Q(5, 3))) / (3 * tm.PI ** 2))
+
+
+def replay_fraclapl(sp):
+    def replay(wit):
+        import ciderpress.dft.settings as S
+        from scipy.integrate import quad
+        rho = 0.7
+        s_ = float(sp)
+        got = float(S.FracLaplSettings([s_], 1, 0, []).ueg_vector(rho)[0])
+        kf = (3 * np.pi ** 2 * rho) ** (1.0 / 3)
+        want = quad(lambda k: k ** (2 + 2 * s_), 0, kf)[0] / np.pi ** 2
+        return {"reproduced": bool(not np.isfinite(got) or abs(got - want) > 1e-8 * abs(want)), "s": s_, "rho": rho, "ueg_vector": got, "quadrature_of_the_momentum_space_definition": want}
+    return replay
+
+
 def units():
-    u = [("ueg_expnt", unit_expnt), ("vmap", unit_vmap), ("sdmx", unit_sdmx)]
+    u = [("ueg_expnt", unit_expnt), ("vmap", unit_vmap), ("sdmx", unit_sdmx), ("fraclapl", unit_fraclapl)]
     for level in ("MGGA", "GGA"):
         for rm in ("one", "expnt"):
             u.append(("VI/%s/%s" % (level, rm), unit_vi(level, rm)))
@@ -475,7 +561,7 @@ EXPLANATION = (
 TRUSTED = [
     "A1: reals for doubles; A3/A4: numpy/Python semantics of pyvc",
     "specs/nldf_kernels.py transcribes docs/features/nldf.rst and the ALLOWED_*_SPECS docstrings; Gaussian moment formula M_k(b) (standard; cross-checked by quadrature in replays)",
-    "SDMX UEG constants (tabulated numbers), FracLaplSettings.ueg_vector (Gamma-function identity) and se_erf_rinv are not checked",
+    "SDMX UEG constants (tabulated numbers) and se_erf_rinv are not checked; FracLaplSettings.ueg_vector is checked against the momentum-space definition for the powers of FL_POWERS",
     "documented exponent at the UEG is pi*A*(n/2)^(2/3) with A = theta_params[0] / feat_params[i][0] (the documented reparametrisation is C02's obligation)",
 ]
 
